@@ -224,7 +224,7 @@ Proof.
   - assert (toks = []) by (apply (parse_nil_iff [] toks Pp); reflexivity). subst toks.
     cbn [is_nil andb orb]. destruct (dup_value_same v0 Hs) as (d & Ed & Eq). rewrite Ed.
     do 2 eexists. split; [reflexivity|]. cbn. split; [reflexivity|].
-    eapply doc_same_trans; [apply doc_same_set_key | exact Eq].
+    eapply doc_same_trans; [apply doc_same_unnamed | exact Eq].
   - cbn [is_nil andb orb bind].
     apply (add_tail_same 8 doc p v0 (c0 :: p0) toks); try assumption. discriminate.
 Qed.
@@ -256,7 +256,7 @@ Proof.
   - assert (toks = []) by (apply (parse_nil_iff [] toks Pp); reflexivity). subst toks.
     cbn [is_nil andb orb]. destruct (dup_value_same v0 Hs) as (d & Ed & Eq). rewrite Ed.
     do 2 eexists. split; [reflexivity|]. cbn. split; [reflexivity|].
-    eapply doc_same_trans; [apply doc_same_set_key | exact Eq].
+    eapply doc_same_trans; [apply doc_same_unnamed | exact Eq].
   - cbn [is_nil andb orb].
     assert (Hne : toks <> []).
     { intro E. apply (parse_nil_iff (c0 :: p0) toks Pp) in E. discriminate. }
@@ -285,7 +285,7 @@ Proof.
   - assert (toks = []) by (apply (parse_nil_iff [] toks Pp); reflexivity). subst toks.
     destruct (dup_value_same v0 Hs) as (d & Ed & Eq). rewrite Ed. cbn [finish_add bind].
     do 2 eexists. split; [reflexivity|]. cbn. split; [reflexivity|].
-    eapply doc_same_trans; [apply doc_same_set_key | exact Eq].
+    eapply doc_same_trans; [apply doc_same_unnamed | exact Eq].
   - apply (add_tail_same 6 doc p v0 (c0 :: p0) toks); try assumption. discriminate.
 Qed.
 
@@ -307,7 +307,7 @@ Proof.
   destruct pstr as [|c0 p0].
   - assert (toks = []) by (apply (parse_nil_iff [] toks Pp); reflexivity). subst toks.
     cbn [finish_add bind]. do 2 eexists. split; [reflexivity|]. cbn. split; [reflexivity|].
-    apply doc_same_set_key.
+    apply doc_same_unnamed.
   - destruct (finish_add_same d1 it it (c0 :: p0) toks Hd1 Np ltac:(discriminate) Pp (doc_same_refl it)) as (st & doc' & Efa & Hr).
     rewrite Efa. cbn [bind]. exists st, doc'. split; [reflexivity|].
     destruct (Rfc6902.add d1 toks it); [exact Hr | apply Hr].
